@@ -240,7 +240,7 @@ pub fn c05_bfs_cycles_n3() {
 }
 
 // DijkstraPred::predecessors, <= 3 arcs on 3 vertices, weights < 16.
-// @verif prop=C05 tier=thorough fl=f2 role=dijkstra-predecessors/sparse t=3600 mem=30
+// @verif prop=C05 tier=exp fl=f2 role=dijkstra-predecessors/sparse t=3600 mem=30
 #[cfg_attr(kani, kani::proof)]
 #[cfg_attr(kani, kani::unwind(5))]
 pub fn c05_dijkstra_predecessors_n3_m3() {
@@ -248,7 +248,7 @@ pub fn c05_dijkstra_predecessors_n3_m3() {
 }
 
 // DijkstraPred::shortest_path, <= 3 arcs on 3 vertices, every target predicate.
-// @verif prop=C05 tier=thorough fl=f2 role=dijkstra-shortest-path/sparse t=3600 mem=30
+// @verif prop=C05 tier=exp fl=f2 role=dijkstra-shortest-path/sparse t=3600 mem=30
 #[cfg_attr(kani, kani::proof)]
 #[cfg_attr(kani, kani::unwind(5))]
 pub fn c05_dijkstra_shortest_path_n3_m3() {
@@ -473,7 +473,7 @@ pub fn c05_dijkstra_pred_step_large_n3_h3() {
 }
 
 // predecessors() and shortest_path() wrappers, whole run on 2 vertices.
-// @verif prop=C05 tier=thorough fl=f2 role=dijkstra-wrappers/whole-run-n2 t=3600 mem=30
+// @verif prop=C05 tier=exp fl=f2 role=dijkstra-wrappers/whole-run-n2 t=3600 mem=30
 #[cfg_attr(kani, kani::proof)]
 #[cfg_attr(kani, kani::unwind(5))]
 pub fn c05_dijkstra_pred_wrappers_n2() {
